@@ -30,11 +30,11 @@ Import ListNotations.
 
 (** THE ONE PLACE TO SWITCH after the F1 fix is committed in /repo: set this to [true].
     It is used only by Corr.v (which semantics the implementation is compared with). *)
-Definition code_variant : bool := false.
+Definition code_variant : bool := true.
 
 (** SECOND SWITCH, only if the S7 patch (RemoveDiffDisk refuses the base snapshot) is committed: set to
     [true].  Used by [remove] (the raw removedisk action); the deletion flow never reaches that test. *)
-Definition s7_guard : bool := false.
+Definition s7_guard : bool := true.
 
 Notation blockdata := (list N) (only parsing).
 Definition file := nat -> option blockdata.
